@@ -46,6 +46,9 @@ func stopErr(e int) error {
 	if e == 0 {
 		return stun.ErrTransactionStopped
 	}
+	if e == 98 {
+		return nil // StopWithError(id, nil): the event carries exactly the reason given, here none
+	}
 	if _, ok := stopErrs[e]; !ok {
 		stopErrs[e] = fmt.Errorf("custom stop error %d", e)
 	}
@@ -61,6 +64,8 @@ func classifyEvent(h int, e stun.Event) agentEv {
 		ev.kind = 2
 	case errors.Is(e.Error, stun.ErrAgentClosed):
 		ev.kind = 3
+	case e.Error == nil:
+		ev.kind, ev.err = 1, 98
 	default:
 		ev.kind = 1
 		if !errors.Is(e.Error, stun.ErrTransactionStopped) {
@@ -138,7 +143,7 @@ func runC13(o *out, thorough bool, r *rng, _ []string) map[string]interface{} {
 		}
 		alphabet = append(alphabet, fNums(2, id, 0), fNums(3, id, []int{0x0101, 0x0011, 0x0111}[id-1]))
 	}
-	alphabet = append(alphabet, fNums(2, 1, 7))
+	alphabet = append(alphabet, fNums(2, 1, 7), fNums(2, 2, 98))
 	for t := 1; t <= 4; t++ {
 		alphabet = append(alphabet, fNums(4, t))
 	}
@@ -177,7 +182,7 @@ func runC13(o *out, thorough bool, r *rng, _ []string) map[string]interface{} {
 			case 0, 1, 2, 3:
 				fs = append(fs, fNums(1, id, now+r.rangeIn(-3, 6)))
 			case 4, 5:
-				fs = append(fs, fNums(2, id, r.pick([]int{0, 0, 0, 5, 9})))
+				fs = append(fs, fNums(2, id, r.pick([]int{0, 0, 0, 5, 9, 98})))
 			case 6, 7:
 				fs = append(fs, fNums(3, id, r.pick([]int{0x0001, 0x0101, 0x0111, 0x0011, 0x0017, 0x0115, r.intn(0x4000)})))
 			case 8, 9:
